@@ -137,9 +137,12 @@ def conditions(tier):
             params = [(f"e{i}", "int") for i in range(n)] + [("perm", "int")]
             distinct = " and ".join(f"e{i} != e{j}" for i in range(n) for j in range(i + 1, n))
             body = f"return set_order_case({n}, [{', '.join(f'e{i}' for i in range(n))}], perm, 'set', {with_str})"
-            name = f"setorder_{n}{'_mixed' if with_str else ''}"
-            conds.append(Cond(name, mkfn(name, params, body, GLB, pre=[distinct, f"0 <= perm < {math.factorial(n)}"]), timeout=900, group="set-order",
-                              bounds=f"{n} distinct symbolic ints{' plus two strs (not orderable branch)' if with_str else ''} in every pair of iteration orders ({math.factorial(n)} permutations)"))
+            total = math.factorial(n)
+            step = total if n < 5 else 15  # the largest case is split by permutation-index ranges (time budget only)
+            for lo in range(0, total, step):
+                name = f"setorder_{n}{'_mixed' if with_str else ''}" + (f"_p{lo}" if step < total else "")
+                conds.append(Cond(name, mkfn(name, params, body, GLB, pre=[distinct, f"{lo} <= perm < {min(lo + step, total)}"]), timeout=1500, group="set-order",
+                                  bounds=f"{n} distinct symbolic ints{' plus two strs (not orderable branch)' if with_str else ''}, second iteration order = permutation #{lo}..{min(lo + step, total) - 1} of {total}"))
     cases = [
         ("", "[n0, {1: n1}, (n2,)]", ["n0", "n1", "n2"], {"create"}),
         ("[c0, c1]", "[n0, n1, n2]", ["c0", "c1", "n0", "n1", "n2"], {"fix"}),
